@@ -27,6 +27,8 @@
 import FianoModel.Uefi.TotalWalkSafe
 import FianoModel.Uefi.TotalAlloc
 import FianoModel.Uefi.TotalTie
+import FianoModel.Uefi.CodeTie   -- T1 code-as-code tie (wp-t1x): audited as a tie module of this check
+import FianoModel.Uefi.CodeTieTotal   -- T1 code-as-code tie (wp-t1x): audited as a tie module of this check
 
 namespace Fiano.Props.C05
 open Fiano GoM Fiano.Uefi Fiano.Uefi.Total
